@@ -169,8 +169,9 @@ REPR_QUICK = [(REPRM, 'fam_repr_objects', 500, 16), (REPRM, 'fam_repr_states', 6
 REPR_THOROUGH = [(REPRM, 'fam_repr_objects', 0, 16), (REPRM, 'fam_repr_states', 300000, 16), (REPRM, 'fam_space_contains', 200000, 16), (ENVM, 'fam_gym_shipped', 21 * 100, 16)]
 
 PROPS['C15'] = {
-    'targets': ['GridVerse.Props.C15'],
-    'theorem_files': [('GridVerse/Props/C15.lean', 'C15_')] + AG('Objects'),
+    'targets': ['GridVerse.Props.C15', 'GridVerse.Props.C01Shipped'],
+    'theorem_files': [('GridVerse/Props/C15.lean', 'C15_'), ('GridVerse/Props/C01Shipped.lean', 'C15_')] + AG('Objects'),
+    'extract': ('tables', 'configs'),
     'audit_prefix': 'C15_',
     'families': {'quick': REPR_QUICK, 'thorough': REPR_THOROUGH},
     'oracle_cases': {'quick': 4800, 'thorough': 200000},
@@ -208,8 +209,9 @@ PROPS['C13'] = {
 }
 
 PROPS['C01'] = {
-    'targets': ['GridVerse.Props.C01'],
-    'theorem_files': [('GridVerse/Props/C01.lean', 'C01_')] + AG('Objects', 'Actions'),
+    'targets': ['GridVerse.Props.C01', 'GridVerse.Props.C01Shipped'],
+    'extract': ('tables', 'configs'),
+    'theorem_files': [('GridVerse/Props/C01.lean', 'C01_'), ('GridVerse/Props/C01Shipped.lean', 'C01_')] + AG('Objects', 'Actions'),
     'audit_prefix': 'C01_',
     'families': {
         'quick': [(CORE, 'fam_trans_smallscope', 0, 16), (CORE, 'fam_trans_random', 3000, 16), (CORE, 'fam_reward', 1600, 16), (CORE, 'fam_term', 1600, 16), (ENVM, 'fam_env_shipped', 84, 16), (ENVM, 'fam_env_random', 640, 16), (ENVM, 'fam_env_nodebug', 480, 16), ('harness.corr_repr', 'fam_space_contains', 6000, 16)],
